@@ -69,8 +69,10 @@ def _ops(draw, n, ncontent, lo, hi):
 @st.composite
 def _history(draw):
     pool = draw(store.alg_pool(False))
-    contents = draw(st.lists(store.content, min_size=2, max_size=4,
-                             unique_by=core.canon))
+    contents = draw(st.lists(
+        st.one_of(store.content, store.content, store.content,
+                  store.big_content),
+        min_size=2, max_size=4, unique_by=core.canon))
     return {'pool': pool, 'contents': contents,
             'ops': draw(_ops(len(pool), len(contents), 3, 20))}
 
